@@ -2,15 +2,19 @@
 //
 // A case is an operation history (several tree handles, walk observations
 // placed by the generator). The real avl.Tree runs it; every output is emitted
-// for exact comparison with the Coq model (Avl.CheckC02: Pre+In+Post pin the
-// shape). Direct oracle, after every mutating operation: the tree revealed by
-// the pre-order and in-order walks (reconstructed; with duplicate values the
-// node structure is read by reflection and checked against the walks) is
+// for exact comparison with the Coq model (Avl.CheckC02: for distinct values
+// Pre+In pin the shape; with duplicate values the walks do not determine it).
+// Direct oracle, after every mutating operation: the tree revealed by the
+// pre-order and in-order walks (reconstructed; with duplicate values the node
+// structure is read by reflection and checked against the walks; if that is
+// not possible the oracle reports Unobservable, it never passes silently) is
 // height-balanced at every node and no deeper than 1.4405*log2(n+2) levels.
-// A further oracle-only stream builds the tree with a call-counting comparator
-// (natural order, or an arbitrary function: balance must not depend on the
-// order) and also checks the cost consequence: at most one comparator call per
-// level for Contains, Add and Remove.
+// A further stream builds the tree with a call-counting comparator (natural
+// order, or an arbitrary function: balance must not depend on the order) and
+// also checks the cost consequence: at most one comparator call per level for
+// Contains, Add and Remove; the natural-order ("counted") cases sent to the
+// model carry the exact number of calls of every op, which must equal the
+// model's run_calls (Avl/Cost.v, theorem C02_cost).
 package c02
 
 import (
@@ -26,7 +30,7 @@ import (
 )
 
 type Case struct {
-	Elem string `json:"elem"` // int | pair (compared with the model) | counted | weird (natural / arbitrary comparator with a call counter, oracle only)
+	Elem string `json:"elem"` // int | pair (compared with the model) | counted (natural order + call counter: compared with the model, call counts included, unless NoModel) | weird (arbitrary comparator with a call counter, oracle only)
 	Seed int    `json:"seed,omitempty"`
 	// Dense = [from,to): the oracle runs after EVERY mutating op in that window whatever the tree size and
 	// after every 16th outside it (without Dense: every op up to 300 nodes, every 16th above).
@@ -155,20 +159,27 @@ func analysePreIn(pre, in, post []int) (v verdict, ok bool) {
 }
 
 // analyseReflect reads the node structure of an *avl.Tree[int] / *avl.Tree[Pair] by reflection, measures it
-// and checks that it reproduces the three walks (ok = false otherwise, or if the fields cannot be read).
-func analyseReflect(tree any, pre, in, post []int) (v verdict, ok bool) {
+// and checks that it reproduces the three walks. ok = false if the fields cannot be read (why = whyFields) or
+// if the node structure does not reproduce the three walks (why = whyWalks).
+const (
+	whyFields = "the private fields Tree.root / node.value,left,right,height could not be read by reflection"
+	whyWalks  = "the node structure read by reflection does not reproduce the three observed walks"
+)
+
+func analyseReflect(tree any, pre, in, post []int) (v verdict, ok bool, why string) {
+	why = whyFields
 	defer func() {
 		if recover() != nil {
-			ok = false
+			ok, why = false, whyFields
 		}
 	}()
 	rv := reflect.ValueOf(tree)
 	if rv.Kind() != reflect.Ptr || rv.IsNil() {
-		return v, false
+		return v, false, why
 	}
 	root := rv.Elem().FieldByName("root")
 	if !root.IsValid() {
-		return v, false
+		return v, false, why
 	}
 	nt := root.Type().Elem() // node[T]
 	fv, ok1 := nt.FieldByName("value")
@@ -176,7 +187,7 @@ func analyseReflect(tree any, pre, in, post []int) (v verdict, ok bool) {
 	fr, ok3 := nt.FieldByName("right")
 	fh, ok4 := nt.FieldByName("height")
 	if !(ok1 && ok2 && ok3 && ok4) {
-		return v, false
+		return v, false, why
 	}
 	iv, il, ir, ih := fv.Index[0], fl.Index[0], fr.Index[0], fh.Index[0]
 	isStruct := fv.Type.Kind() == reflect.Struct
@@ -220,7 +231,10 @@ func analyseReflect(tree any, pre, in, post []int) (v verdict, ok bool) {
 		return h
 	}
 	v.height = walk(root)
-	return v, match && pi == len(pre) && ii == len(in) && oi == len(post)
+	if match && pi == len(pre) && ii == len(in) && oi == len(post) {
+		return v, true, ""
+	}
+	return v, false, whyWalks
 }
 
 func max(a, b int) int {
@@ -271,8 +285,12 @@ func checkWalks(c *core.Ctx, failed *bool, pre, in, post []int, root any, step i
 	if !ok {
 		// duplicate values: pre+in do not determine the tree; read the nodes and check them against the walks
 		how = "oracle_reflect"
-		if v, ok = analyseReflect(root, pre, in, post); !ok {
-			c.Count("oracle_skipped_shape_unknown")
+		var why string
+		if v, ok, why = analyseReflect(root, pre, in, post); !ok {
+			// the shape of this tree was not established: the balance oracle did not observe it. Never silent
+			// (bin/check reports a broken correspondence); it does not happen on the unchanged tree.
+			c.Unobservable("C02 balance oracle: pre-order + in-order do not determine the tree (duplicate values, or inconsistent walks) and " + why +
+				"; the balance and depth of that tree were not checked")
 			return -1
 		}
 	} else {
@@ -282,7 +300,7 @@ func checkWalks(c *core.Ctx, failed *bool, pre, in, post []int, root any, step i
 		}
 		if len(pre) <= 64 || step%16 == 0 {
 			// the cached height fields, as a statistic only (not part of the property)
-			if r, ok2 := analyseReflect(root, pre, in, post); ok2 && r.cacheWrong > 0 {
+			if r, ok2, _ := analyseReflect(root, pre, in, post); ok2 && r.cacheWrong > 0 {
 				c.Count("cached_height_fields_wrong")
 			}
 		}
@@ -664,11 +682,12 @@ func classify(c *core.Ctx, m *mirror, maxSize int, dup bool) {
 	}
 }
 
-// execWeird: one tree built here with a call-counting comparator — the natural
-// order ("counted") or an arbitrary function ("weird"); implementation + oracle
-// only. Besides balance and depth it checks the cost consequence: Contains, Add
-// and Remove call the comparator at most once per level of the tree they start
-// from, hence at most 1.4405*log2(n+2) times.
+// execWeird: trees built here with a call-counting comparator — the natural order ("counted") or an
+// arbitrary function ("weird"). Besides balance and depth it checks the cost consequence: Contains, Add and
+// Remove call the comparator at most once per level of the tree they start from, hence at most
+// 1.4405*log2(n+2) times. A "counted" case that is not NoModel is also emitted to the Coq model with the
+// EXACT number of comparator calls of every op (Avl/Check.v check_calls: must equal the model's run_calls,
+// which is built from the cost functions theorem C02_cost speaks about) and with every output.
 func execWeird(c *core.Ctx, cs Case) {
 	base := intCompare
 	if cs.Elem == "weird" {
@@ -676,74 +695,87 @@ func execWeird(c *core.Ctx, cs Case) {
 	}
 	calls := 0
 	cmp := func(a, b int) int { calls++; return base(a, b) }
-	t := avl.New(cmp)
+	ts := avlh.NewIntCmp(cmp)
 	m := newMirror(base)
 	failed := false
 	maxSize := 0
-	levels := 0 // of the current tree; -1 = unknown
+	levels := []int{0} // number of levels of the current tree of every handle; -1 = not established
+	outs := make([]avlh.Out, 0, len(cs.Ops))
+	ncalls := make([]int, 0, len(cs.Ops))
+	exactOps := 0
 	for i, o := range cs.Ops {
-		if o.H != 0 {
-			continue
+		n := 0
+		if t, ok := ts.Root(o.H).(*avl.Tree[int]); ok && t != nil {
+			n = t.Len()
 		}
-		o := o
 		calls = 0
-		n := t.Len()
-		kind := core.Try(func() {
-			switch o.K {
-			case "Add":
-				t.Add(o.V)
-			case "Remove":
-				t.Remove(o.V)
-			case "Contains":
-				t.Contains(o.V)
-			case "Clear":
-				t.Clear()
-			}
-		})
+		out := ts.Exec(o)
+		k := calls
+		outs = append(outs, out)
+		m.exec(o)
 		c.Count("op_" + o.K)
-		if kind != "" {
+		switch out.Kind {
+		case "panic":
+			ncalls = append(ncalls, -1)
 			if !failed {
 				failed = true
-				c.Fail("panic", fmt.Sprintf("op #%d (%s v=%d) panicked: %s (comparator %s seed %d)", i, o.K, o.V, kind, cs.Elem, cs.Seed))
+				c.Fail("panic", fmt.Sprintf("op #%d (%s h=%d v=%d) panicked: %s (comparator %s seed %d)", i, o.K, o.H, o.V, out.Panic, cs.Elem, cs.Seed))
 			}
 			continue
+		case "badhandle":
+			ncalls = append(ncalls, -1)
+			c.Count("bad_handle")
+			continue
 		}
-		if levels >= 0 && (o.K == "Add" || o.K == "Remove" || o.K == "Contains") {
+		if o.K == "Clone" {
+			ncalls = append(ncalls, -1) // a run of Adds on a fresh tree: not counted by the model
+		} else {
+			ncalls = append(ncalls, k)
+			exactOps++
+		}
+		if levels[o.H] >= 0 && (o.K == "Add" || o.K == "Remove" || o.K == "Contains") {
 			c.Count("cost_checked")
-			if calls > c.Stats["max_comparator_calls"] {
-				c.Stats["max_comparator_calls"] = calls
+			if k > c.Stats["max_comparator_calls"] {
+				c.Stats["max_comparator_calls"] = k
 			}
 			what := ""
 			switch {
-			case float64(calls) > 1.4405*math.Log2(float64(n+2)):
+			case float64(k) > 1.4405*math.Log2(float64(n+2)):
 				what = "more comparator calls than 1.4405*log2(n+2)"
-			case calls > levels:
+			case k > levels[o.H]:
 				what = "more comparator calls than levels of the tree (theorem C02_cost allows one per level)"
 			}
 			if what != "" && !failed {
 				failed = true
-				c.Fail(what, fmt.Sprintf("op #%d (%s v=%d) made %d comparator calls on a tree of %d nodes and %d levels", i, o.K, o.V, calls, n, levels))
+				c.Fail(what, fmt.Sprintf("op #%d (%s v=%d) made %d comparator calls on a tree of %d nodes and %d levels", i, o.K, o.V, k, n, levels[o.H]))
 			}
 		}
-		if !isMutating(o.K) || o.K == "Clone" {
+		if !isMutating(o.K) {
 			continue
 		}
-		m.exec(o)
-		if m.sizes[0] > maxSize {
-			maxSize = m.sizes[0]
+		h := o.H
+		if o.K == "Clone" {
+			h = ts.N() - 1
+			levels = append(levels, -1)
 		}
-		if !cs.check(i, m.sizes[0]) {
-			levels = -1 // shape not established after this op: no cost check on the next one
+		if m.sizes[h] > maxSize {
+			maxSize = m.sizes[h]
+		}
+		if !cs.check(i, m.sizes[h]) {
+			levels[h] = -1 // shape not established after this op: no cost check on the next one
 			continue
 		}
-		var pre, in, post []int
-		t.WalkPreOrder(func(v int) { pre = append(pre, v) })
-		t.WalkInOrder(func(v int) { in = append(in, v) })
-		t.WalkPostOrder(func(v int) { post = append(post, v) })
-		levels = checkWalks(c, &failed, pre, in, post, &t, i, o)
+		pre, in, post := walksOf(ts.Root(h))
+		levels[h] = checkWalks(c, &failed, pre, in, post, ts.Root(h), i, o)
 	}
 	classify(c, m, maxSize, false)
-	c.Count("oracle_only_cases")
+	if cs.Elem == "counted" && !cs.NoModel {
+		c.Count("counted_cases_to_model")
+		c.CountN("comparator_calls_compared_exactly_ops", exactOps)
+		c.Emit(avlh.CoqCaseCalls(cs.Ops, outs, ncalls))
+	} else {
+		c.Count("oracle_only_cases")
+	}
 	if failed && cs.Elem == "weird" {
 		// the same operations under the natural order, as a case of its own (compared with the model too)
 		exec(c, Case{Elem: "int", Ops: cs.Ops})
@@ -964,6 +996,13 @@ func run(c *core.Ctx) {
 			default:
 				g.op("Clear", 0, 0)
 			}
+			if cs.Elem == "counted" && k%29 == 0 { // counted cases go to the model: pin the shape now and then
+				g.observe(0, false)
+			}
+		}
+		if cs.Elem == "counted" {
+			g.op("Len", 0, 0)
+			g.observe(0, true)
 		}
 		cs.Ops = g.ops
 		exec(c, cs)
@@ -1094,6 +1133,9 @@ func heavyStream(c *core.Ctx) {
 			exec(c, newGen(c).heavy(r, "int", n, rep == 0 && n <= 129))
 			exec(c, newGen(c).heavy(r, pick(r), n, false))
 			exec(c, newGen(c).heavy(r, oracleElem(), n, false))
+			if rep == 0 && (n <= 257 || n == 1025) { // exact comparator-call counts compared with the model
+				exec(c, newGen(c).heavy(r, "counted", n, true))
+			}
 		}
 	}
 	// (b) dense coverage of 13..200 nodes: every size several times
@@ -1103,7 +1145,8 @@ func heavyStream(c *core.Ctx) {
 	}
 	for i := 0; i < 376*mult; i++ {
 		n := 13 + i%188
-		exec(c, newGen(c).heavy(r, oracleElem(), n, false))
+		e := oracleElem()
+		exec(c, newGen(c).heavy(r, e, n, e == "counted" && i%8 < 2))
 	}
 	// (c) sizes spread log-uniformly over 16..4096
 	for i := 0; i < 90*mult; i++ {
